@@ -2,7 +2,7 @@
 import os, json, hashlib, shutil
 import common, polyrun, gen_poly
 
-BASE_COQ = ["Base/FM.v", "Base/Sys.v", "Base/Gens.v", "Poly/PolyOps.v", "Base/Sup.v", "Poly/PolyQuery.v", "Poly/PolyCg.v", "Poly/GensLeast.v", "Poly/PolyGenOps.v", "Poly/PolyOpsLhs.v", "Poly/PolyRepIndep.v", "Poly/PosTimeElapse.v", "Poly/PolyDiff.v"]
+BASE_COQ = ["Base/FM.v", "Base/Sys.v", "Base/Gens.v", "Poly/PolyOps.v", "Base/Sup.v", "Poly/PolyQuery.v", "Poly/PolyCg.v", "Poly/GensLeast.v", "Poly/PolyGenOps.v", "Poly/PolyOpsLhs.v", "Poly/PolyRepIndep.v", "Poly/PosTimeElapse.v", "Poly/PolyDiff.v", "Poly/Simplify.v"]
 
 TRUSTED = [
     "Coq 8.16.1 kernel (coqc); vm_compute only in the non-vacuity Examples; no native_compute",
